@@ -7,7 +7,8 @@
 //! so that 64-byte translation windows end inside blocks, x86 instructions straddle byte 64, MIPS
 //! branches sit in the last 8 bytes of a window, branch targets fall into the middle of blocks,
 //! loops go back to the entry, the region ends right after the last instruction, x86 code is
-//! unaligned.
+//! unaligned, x86 branches land in the middle of an instruction whose immediate bytes are
+//! instructions themselves (overlapping decodings).
 //!
 //! Oracle: the generator's ground truth (instruction boundaries, direct targets, the set R of
 //! instructions reachable through direct branches) and a sequential stepper that lifts ONE step
@@ -78,6 +79,28 @@ fn gen_slot(t: &mut Tape, isa: Isa) -> Simple {
     }
 }
 
+/// x86 / amd64: an instruction whose immediate bytes are instructions (see `Item::Overlap`)
+fn gen_overlap(t: &mut Tape, isa: Isa) -> Item {
+    // short encodings, so that several fit into an immediate
+    let small = |t: &mut Tape| {
+        let mut s = gen_simple(t, isa);
+        if s.kind == 3 {
+            s.kind = 6;
+        }
+        if s.kind == 2 {
+            s.form &= !1;
+        }
+        s
+    };
+    let outer = gen_simple(t, isa);
+    let np = t.range(1, 3);
+    let payload: Vec<Simple> = (0..np).map(|_| small(t)).collect();
+    let end = t.weighted(&[36, 12, 16, 18, 18]) as u8;
+    let cc = t.below(14) as u8;
+    let follow: Vec<Simple> = if end == 4 { (0..2).map(|_| small(t)).collect() } else { Vec::new() };
+    Item::Overlap { outer, payload, end, cc, follow }
+}
+
 fn draw_run(t: &mut Tape, isa: Isa) -> usize {
     match t.weighted(&[15, 30, 20, 35]) {
         0 => 0,
@@ -107,7 +130,11 @@ fn decode(t: &mut Tape) -> Case {
     let mut run_left = draw_run(t, isa);
     while items.len() + 1 < n {
         if run_left > 0 {
-            items.push(Item::S(gen_simple(t, isa)));
+            if isa.is_x86() && t.chance(1, 8) {
+                items.push(gen_overlap(t, isa));
+            } else {
+                items.push(Item::S(gen_simple(t, isa)));
+            }
             run_left -= 1;
             continue;
         }
@@ -181,6 +208,16 @@ fn decode(t: &mut Tape) -> Case {
             _ => i,
         };
         *items[i].target_mut().unwrap() = tgt.min(n - 1);
+    }
+    // x86 / amd64: direct branches into the middle of an instruction (a branch to an
+    // overlapping-decodings item lands on the first byte of its immediate)
+    let overlaps: Vec<usize> = (0..n).filter(|i| matches!(items[*i], Item::Overlap { .. })).collect();
+    if isa.is_x86() && !overlaps.is_empty() {
+        for i in 0..n {
+            if items[i].target().is_some() && t.chance(1, 3) {
+                *items[i].target_mut().unwrap() = *t.pick(&overlaps);
+            }
+        }
     }
     let disp_items = [t.below(n), t.below(n)];
     let manual = if placed_dispatch { [3u8, 3, 3, 1, 2, 0][t.below(6)] } else { 0 };
@@ -392,6 +429,30 @@ fn check(c: &Case, obs: &mut Obs) -> Result<(), Failure> {
     // ---- the sequential execution
     let st = run_stepper(&p, &units, &init, &lifted, &watch, c.max_steps, None);
     if let End::Fault(f) = &st.end {
+        // The generator knows where execution can continue after every direct branch and every
+        // plain instruction it emitted.  A step unit (one instruction, lifted alone with
+        // `translate_block`) that offers no enabled successor there, two different ones, or one
+        // that is not a ground-truth successor contradicts the machine code itself: the defect is in
+        // what `translate_block` returns (which `translate_function` is built from), not a
+        // limitation of the stepper.  Every other stepper fault (pc leaves the lifted code, unmapped
+        // load, undefined scalar in a guard, ...) stays an exclusion.
+        if let Some((pc, kind, truth)) = &st.contradiction {
+            let what = match kind {
+                prog::Kind::Plain => "plain-instruction",
+                _ => "direct-branch",
+            };
+            let text = p.by_addr.get(pc).map(|k| p.insns[*k].text.clone()).unwrap_or_default();
+            fv::fail!(
+                format!("C06|{}|stepper|{}-at-{}", tag, f, what),
+                "the step unit at 0x{:x} ({}), lifted alone with translate_block, ends with `{}` ({}); the machine code continues at one of {:x?}\n{}",
+                pc,
+                text,
+                f,
+                st.note,
+                truth,
+                listing(&p)
+            );
+        }
         obs.exclude(&format!("stepper-fault:{}", f.split(':').next().unwrap_or("")));
         return Ok(());
     }
@@ -421,6 +482,13 @@ fn check(c: &Case, obs: &mut Obs) -> Result<(), Failure> {
     shape(obs, p.disp_addr.is_some(), 13, "dispatch");
     shape(obs, sh.long_block, 14, "block-over-56-bytes");
     shape(obs, sh.target_delay_slot, 15, "target-is-delay-slot");
+    // overlapping decodings: an instruction reachable through direct branches starts inside
+    // another reachable instruction
+    let overlapping = r_units.iter().any(|k| p.insns[*k].inner && r_units.contains(&p.item_first[p.insns[*k].item]));
+    shape(obs, overlapping, 16, "overlapping-decode");
+    if overlapping && r_units.iter().any(|k| p.insns[*k].inner && p.insns[*k].kind != prog::Kind::Plain) {
+        obs.class("overlapping-decode:inner-transfer");
+    }
     obs.count("native-events", st.evs.len() as u64);
     obs.class(match &st.end {
         End::Exit(_) => "end:exit",
@@ -771,6 +839,28 @@ fn simplify(c: &Case) -> Vec<Case> {
                 d.items[i] = Item::S(nop.clone());
                 v.push(d);
             }
+            Item::Overlap { outer, payload, end, cc, follow } => {
+                let mut d = c.clone();
+                d.items[i] = Item::S(nop.clone());
+                v.push(d);
+                if *end != 0 || *cc != 0 || !follow.is_empty() {
+                    let mut d = c.clone();
+                    d.items[i] = Item::Overlap { outer: outer.clone(), payload: payload.clone(), end: 0, cc: 0, follow: Vec::new() };
+                    v.push(d);
+                }
+                for j in 0..payload.len() {
+                    let mut q = payload.clone();
+                    q.remove(j);
+                    let mut d = c.clone();
+                    d.items[i] = Item::Overlap { outer: outer.clone(), payload: q, end: *end, cc: *cc, follow: follow.clone() };
+                    v.push(d);
+                }
+                if *outer != nop {
+                    let mut d = c.clone();
+                    d.items[i] = Item::Overlap { outer: nop.clone(), payload: payload.clone(), end: *end, cc: *cc, follow: follow.clone() };
+                    v.push(d);
+                }
+            }
             it if it.is_transfer() => {
                 if i + 1 < n && !matches!(it, Item::Dispatch { .. }) {
                     // a transfer becomes a plain instruction
@@ -867,7 +957,7 @@ fn simplify(c: &Case) -> Vec<Case> {
 /// generator, same oracle as the proptest tiers.
 #[allow(dead_code)]
 pub fn fuzz_bytes(data: &[u8]) {
-    let tape = fv::tape::words_from_bytes(data, 900);
+    let tape = fv::tape::words_from_bytes(data, 1200);
     let case = decode(&mut Tape::new(&tape));
     engine::fuzz_one("C06", &case, &render, &check);
 }
@@ -876,8 +966,8 @@ pub fn fuzz_bytes(data: &[u8]) {
 fn main() -> std::process::ExitCode {
     let mut spec = Spec::new(
         "C06",
-        "machine-code programs of 3-60 items for x86/amd64/mips/mipsel/aarch64 (ALU, scratch loads/stores, forward/backward conditional and unconditional direct branches, counted loops, optional jmp-reg dispatch with manual edges, junk islands) recovered with translate_function[_extended] and compared, structurally against the generator's ground truth (every reachable instruction's IL present exactly once and in no more blocks than its own lifting has, entry block at the function address, no dangling edge/entry/exit, manual tails lifted and connected) and behaviourally (Driver and reference interpreter on the recovered function vs a sequential one-unit-at-a-time stepper, same random initial state, up to 2000 native steps: one event per executed native instruction, address and state digest; plus blockify() of the entry window vs the stepper); non-trivial = at least 2 blocks after merge and at least one taken branch in the execution; distinct = (ISA, set of layout shapes {window cut, straddle, cut on boundary, MIPS branch in last 8 bytes, mid-block target, backward, entry loop, manual edges, ...}, instruction-count bucket)",
-        Box::new(|_t: Tier| from_tape(900, decode).no_shrink().boxed()),
+        "machine-code programs of 3-60 items for x86/amd64/mips/mipsel/aarch64 (ALU, scratch loads/stores, forward/backward conditional and unconditional direct branches, counted loops, optional jmp-reg dispatch with manual edges, junk islands; x86/amd64: direct branches into the middle of an instruction whose immediate bytes are instructions, i.e. overlapping decodings) recovered with translate_function[_extended] and compared, structurally against the generator's ground truth (every step unit's successors agree with the generator's direct targets and fall-throughs, every reachable instruction's IL present exactly once and in no more blocks than its own lifting has, entry block at the function address, no dangling edge/entry/exit, manual tails lifted and connected) and behaviourally (Driver and reference interpreter on the recovered function vs a sequential one-unit-at-a-time stepper, same random initial state, up to 2000 native steps: one event per executed native instruction, address and state digest; plus blockify() of the entry window vs the stepper); non-trivial = at least 2 blocks after merge and at least one taken branch in the execution; distinct = (ISA, set of layout shapes {window cut, straddle, cut on boundary, MIPS branch in last 8 bytes, mid-block target, backward, entry loop, manual edges, overlapping decode, ...}, instruction-count bucket)",
+        Box::new(|_t: Tier| from_tape(1200, decode).no_shrink().boxed()),
         |t| t.pick(45_000, 1_500_000),
         check,
     );
@@ -927,6 +1017,9 @@ fn main() -> std::process::ExitCode {
         ("region-ends-after-last-instruction", 0.22),
         ("unaligned-base", 0.14),
         ("target-is-fallthrough", 0.05),
+        ("x86:overlapping-decode", 0.016),
+        ("amd64:overlapping-decode", 0.016),
+        ("overlapping-decode:inner-transfer", 0.017),
         ("end:exit", 0.27),
         ("blockify-compared", 0.5),
     ];
